@@ -692,6 +692,16 @@ func (s *scope) createInstance(descriptor *Descriptor) (any, error) {
 			}
 		}
 
+		// The constructor left the requested field nil: nothing is stored, so that the instances this scope already holds
+		// for the other fields keep their identity. What this invocation produced stays owned and is disposed with the scope
+		if s.producedFor(descriptor, registrations) == nil {
+			s.trackUnstored(descriptor.Lifetime, registrations)
+			return nil, &ValidationError{
+				ServiceType: descriptor.Type,
+				Cause:       fmt.Errorf("result object produced no services"),
+			}
+		}
+
 		// Find the primary service to return
 		var primaryService any
 		for _, reg := range registrations {
@@ -808,6 +818,36 @@ func (s *scope) createInstance(descriptor *Descriptor) (any, error) {
 
 	s.setAliasedInstance(descriptor, instance)
 	return instance, nil
+}
+
+// producedFor returns the value a result object carries for the registration that is being resolved, or nil when the
+// constructor left that field nil (ProcessResultObject does not report nil fields).
+func (s *scope) producedFor(descriptor *Descriptor, registrations []reflection.ServiceRegistration) any {
+	for _, reg := range registrations {
+		// Convert empty string key to nil for consistent lookup
+		var regKey any
+		if reg.Key != "" {
+			regKey = reg.Key
+		}
+
+		regDescriptor := descriptor.outputForField(reg.Name)
+		if regDescriptor == nil {
+			regDescriptor = s.rootProvider.findDescriptor(reg.Type, regKey)
+		}
+
+		if regDescriptor == descriptor || (len(descriptor.outputs) == 0 && reg.Type == descriptor.Type && regKey == descriptor.Key) {
+			return reg.Value
+		}
+	}
+
+	return nil
+}
+
+// trackUnstored makes the owner of the given lifetime dispose the values of a result object none of which is stored.
+func (s *scope) trackUnstored(lifetime Lifetime, registrations []reflection.ServiceRegistration) {
+	for _, reg := range registrations {
+		s.trackOnly(lifetime, reg.Value)
+	}
 }
 
 // setAliasedInstance stores the one instance of a single-output registration: under the registration itself and,
